@@ -107,10 +107,24 @@ def main(argv):
         for t in range(nprob):
             kind = "ehm"[t % 3]
             prob = gen.gen_any(kind, rng, mix=True)
+            tries_ = 0
+            while (t // 3) % 2 == 1 and tries_ < 20 and not (len(prob.labels) >= 3 and any(r.get("label") == len(prob.labels) - 1 for r in prob.regions)):
+                prob = gen.gen_any(kind, rng, mix=True)       # the default-label round needs three labelled regions
+                tries_ += 1
             prob.smartmesh = rng.choice([0, 0, 1])
             for lab in prob.labels:
                 if lab["meshsize"] <= 0:
                     lab["meshsize"] = rng.choice([1.0, 2.0, 0.75])
+            # every second round of the three physics: a region WITHOUT a block label next to a label flagged as default that is not the first
+            # one in the file - the elements of the unlabelled region belong to the default label
+            if (t // 3) % 2 == 1 and len(prob.labels) >= 3:
+                last = len(prob.labels) - 1
+                owner = [r for r in prob.regions if r.get("label") == last]
+                if owner and not any(l_["default"] for l_ in prob.labels):
+                    owner[0]["label"] = "default"
+                    prob.labels.pop()
+                    prob.labels[last - 1]["default"] = 1
+                    stats["default_label_problems"] = stats.get("default_label_problems", 0) + 1
             run = Run(build, work, "p%d" % t, prob)
             stats["kinds"][kind] += 1
             stats["families"][prob.family] = stats["families"].get(prob.family, 0) + 1
@@ -207,8 +221,8 @@ def main(argv):
             for k, (p0, p1, p2, lbl, blk, e0, e1, e2) in enumerate(he):
                 cx = (xy[p0][0] + xy[p1][0] + xy[p2][0]) / 3
                 cy = (xy[p0][1] + xy[p1][1] + xy[p2][1]) / 3
-                reg = [r for r in prob.regions if r["label"] == lbl]
-                if not reg or not meshgeom.in_region((cx, cy), reg[0]):
+                reg = [r for r in prob.regions if r["label"] == lbl or (r["label"] == "default" and lbl == dflt)]
+                if not reg or not any(meshgeom.in_region((cx, cy), r_) for r_ in reg):
                     bad = ("element-wrong-label", "element %d (centroid %.6g,%.6g) is attributed to label %d whose drawn region does not contain it" % (k, cx, cy, lbl), dict(element=k, label=lbl))
                     break
                 if lbl is not None and 0 <= lbl < len(prob.labels) and blk != prob.labels[lbl]["block"]:
